@@ -264,6 +264,10 @@ int l1sched_configure_ts(struct l1sched_state *sched, int tn,
 			return -ENOMEM;
 	}
 
+	/* Init logical channels list (also when the layout below is refused,
+	 * so that a later reset / reconfiguration finds a valid list) */
+	INIT_LLIST_HEAD(&ts->lchans);
+
 	/* Choose proper multiframe layout */
 	ts->mf_layout = l1sched_mframe_layout(config, tn);
 	if (!ts->mf_layout)
@@ -280,9 +284,6 @@ int l1sched_configure_ts(struct l1sched_state *sched, int tn,
 	LOGP_SCHEDC(sched, LOGL_NOTICE,
 		    "(Re)configure TDMA timeslot #%u as %s\n",
 		    tn, ts->mf_layout->name);
-
-	/* Init logical channels list */
-	INIT_LLIST_HEAD(&ts->lchans);
 
 	/* Allocate channel states */
 	for (type = 0; type < _L1SCHED_CHAN_MAX; type++) {
